@@ -222,7 +222,7 @@ def check_C08():
     ctx = Ctx("C08"); cov = {}
     broken = proof_part(ctx, "props/C08.v", ["proofs/C08_cache.v", "proofs/C06_hist.v", "proofs/C06_seq.v", "proofs/C11_table.v", "proofs/C11_lists.v",
                                              "proofs/X_basic.v", "proofs/X_inv.v", "proofs/X_c13.v", "proofs/X_own.v", "proofs/X_chain.v", "proofs/X_c04.v",
-                                             "proofs/X_lin.v", "proofs/X_resize.v", "proofs/X_read.v", "proofs/X_count.v", "XMachine.v"], cov)
+                                             "proofs/X_lin.v", "proofs/X_resize.v", "proofs/X_read.v", "proofs/X_count.v", "XMachine.v", "props/C03.v", "proofs/XS_lock.v", "proofs/XS_own.v", "proofs/XS_count.v", "proofs/XS_inst.v", "XMachineS.v"], cov)
     res = cache_seq_part(ctx, "C08", cov, N(ctx, 1200, 20000), broken, dense=True)
     law_part(ctx, "C08", cov, res)
     table_part(ctx, "C08", cov, N(ctx, 60, 600), [])
@@ -576,7 +576,7 @@ def reentrant_scenarios():
 
 def check_C13():
     ctx = Ctx("C13"); cov = {}
-    broken = proof_part(ctx, "props/C13.v", ["proofs/X_basic.v", "proofs/X_inv.v", "proofs/X_c13.v", "proofs/X_inst.v", "XMachine.v"], cov)
+    broken = proof_part(ctx, "props/C13.v", ["proofs/X_basic.v", "proofs/X_inv.v", "proofs/X_c13.v", "proofs/X_inst.v", "XMachine.v", "props/C03.v", "proofs/XS_inv.v", "proofs/XS_lock.v", "proofs/XS_inst.v", "XMachineS.v"], cov)
     n = N(ctx, 1200, 20000)
     from . import solo
     fam = solo.resize_families(ctx.tier, [("Map", None), ("MapOf_int", "default"), ("MapOf_int", "const"), ("MapOf_str", "default")])
@@ -653,7 +653,7 @@ def check_C04():
 
 def check_C03():
     ctx = Ctx("C03"); cov = {}
-    broken = proof_part(ctx, "props/C03.v", ["proofs/C11_table.v", "proofs/C11_lists.v", "proofs/X_maps.v", "proofs/XS_inv.v", "TableModel.v", "XMachineS.v"], cov)
+    broken = proof_part(ctx, "props/C03.v", ["proofs/C11_table.v", "proofs/C11_lists.v", "proofs/X_maps.v", "proofs/XS_inv.v", "TableModel.v", "XMachineS.v", "proofs/XS_lock.v", "proofs/XS_own.v", "proofs/XS_count.v", "proofs/XS_inst.v"], cov)
     n = N(ctx, 2000, 30000)
     from . import solo
     fam = solo.resize_families(ctx.tier, [("Map", None)])
@@ -668,7 +668,7 @@ def check_C03():
 
 def check_C14():
     ctx = Ctx("C14"); cov = {}
-    broken = proof_part(ctx, "props/C14.v", ["proofs/X_basic.v", "proofs/X_inv.v", "proofs/X_c13.v", "proofs/X_c16.v", "proofs/X_own.v", "XMachine.v"], cov) if os.path.exists(os.path.join(C.COQ, "props/C14.v")) else []
+    broken = proof_part(ctx, "props/C14.v", ["proofs/X_basic.v", "proofs/X_inv.v", "proofs/X_c13.v", "proofs/X_c16.v", "proofs/X_own.v", "XMachine.v", "props/C03.v", "proofs/XS_lock.v", "proofs/XS_own.v", "proofs/XS_inst.v", "XMachineS.v"], cov) if os.path.exists(os.path.join(C.COQ, "props/C14.v")) else []
     res = run_native(ctx, "race")
     j = res.get("raw") or {}
     cov["native_race"] = dict(race_enabled=j.get("race_enabled"), workloads=len(j.get("workloads", [])), race_reports=j.get("race_reports"),
